@@ -497,6 +497,9 @@ def run_single_cell_rules(case, stats):
                      parameters=[(k, v) for k, v in m["params"].items()], rules=[rm.rule_tuple(x) for x in m.get("rules", [])],
                      initial_condition_dict=dict(m["init"]), initialize_model=False)
     M.create_volume_rule("linear", {"growth_rate": 0.01})
+    de = case.get("lin_death")
+    if de:
+        M.create_death_rule("species", {"specie": de["specie"], "threshold": de["threshold"], "comp": de["comp"]})
     M.py_initialize()
     for i in range(case.get("reinit", 0) or 0):      # edit history: un-initialise by an unused parameter, initialise again
         M.create_parameter("zz_unused_%d" % i, 1.0)
@@ -519,7 +522,14 @@ def run_single_cell_rules(case, stats):
         viols.append({"class": "simulator_raised", "signature": {"mode": "lineage"}, "detail": {"error": raw["error"]}})
         return raw, viols
     n = raw["rows"].shape[0]
-    if n != len(grid) or not np.array_equal(raw["times"], grid):
+    if de:
+        stats["lineage_cells_with_death_rule"] = stats.get("lineage_cells_with_death_rule", 0) + 1
+        if n < len(grid):
+            stats["lineage_cells_died"] = stats.get("lineage_cells_died", 0) + 1
+        if n < 1 or n > len(grid) or not np.array_equal(raw["times"], grid[:n]):
+            viols.append({"class": "time_axis_not_a_prefix_of_the_grid", "signature": {"mode": "lineage"},
+                          "detail": {"rows": n, "requested": len(grid)}})
+    elif n != len(grid) or not np.array_equal(raw["times"], grid):
         viols.append({"class": "rows_missing_without_division", "signature": {"mode": "lineage"},
                       "detail": {"rows": n, "requested": len(grid)}})
     if np.any(raw["vols"] <= 0):
